@@ -584,6 +584,7 @@ class Ctx:
         self.hist = {}
         self.seen = set()
         self.jobs = {}           # failing oracle case -> the harness job (process) it was observed in
+        self.os_outputs = {}     # failing unseeded case -> the bytes it returned (not reproducible otherwise)
 
     def bump(self, k, n=1):
         self.hist[k] = self.hist.get(k, 0) + n
@@ -612,7 +613,7 @@ def stream_oracle(cx, profiles=None, mult=1, stop_on_first=False):
         for (req, v) in run_oracle(n * mult, jseed, prof, P["unsafe"], extra=jextra):
             cx.cov["evaluations"] += 1
             r = toks(req)
-            cx.bump("P%s/%s/%s" % (r.get("P"), "rand" if r.get("mode", "").startswith("rand") else "arb", prof))
+            cx.bump("P%s/%s/%s" % (r.get("P"), "rand" if r.get("mode", "").startswith("rand") else ("os-entropy" if r.get("mode") == "os" else "arb"), prof))
             if r.get("warm", "0") != "0":
                 cx.bump("reused-generator")
             if v.get("gen") != "ok":
@@ -630,6 +631,8 @@ def stream_oracle(cx, profiles=None, mult=1, stop_on_first=False):
             if key != "gen" and v.get(key, "").startswith("FAIL"):
                 cx.failing.append(("oracle", case_of(req), v[key]))
                 cx.jobs[case_of(req)] = jobcmd
+                if r.get("mode") == "os":
+                    cx.os_outputs[case_of(req)] = r.get("result", "")[:200000]
                 if stop_on_first:
                     return
     cx.cov["distinct_nontrivial"] = len(cx.seen)
@@ -1195,6 +1198,13 @@ def check_property(prop, tier, seed):
             classes.setdefault(stream + ":" + k, (stream, cl, det))
         for k, (stream, cl, det) in list(classes.items())[:4]:
             mcl = cl
+            if stream == "oracle" and " mode=os" in cl:
+                # unseeded generation (OS entropy): cannot be re-run; the violating bytes themselves are the evidence
+                p = write_replay(prop, "failing-input", dict(stream=stream, case=cl, observed=det, required="the property holds for every seed the OS may supply",
+                                 output_that_violated_it=cx.os_outputs.get(cl, "?"),
+                                 note="judge the recorded bytes: echo 'oracle <case> result=<output>' | pfv-driver"))
+                violations.append((p, ""))
+                continue
             if stream == "oracle" and P["key"] != "gen":
                 mcl = minimise(cl, P["key"])
                 _, v = rerun_case(mcl)
@@ -1315,8 +1325,8 @@ def check_c07(prop, tier, seed):
     seen = set()
     for k in range(1, len(outs)):
         for a, b in zip(base, outs[k]):
-            if not a.startswith("oracle "):
-                continue
+            if not a.startswith("oracle ") or " mode=os " in a:
+                continue        # unseeded generations draw from the operating system: C07 speaks of seeded / fuzzer-bytes runs
             cov["evaluations"] += 1
             seen.add(hashlib.sha256(a.encode()).hexdigest())
             if a != b:
@@ -1329,7 +1339,7 @@ def check_c07(prop, tier, seed):
             cx.sample(dict(case=case_of(a)[:200], identical_in_processes=procs))
     # (2) isolation: a case run alone in a fresh process vs inside the long-lived batch process
     iso = 40 if tier == "quick" else 400
-    lines = [l for l in base if l.startswith("oracle ")]
+    lines = [l for l in base if l.startswith("oracle ") and " mode=os " not in l]
     rnd = random.Random(seed)
     for l in rnd.sample(lines, min(iso, len(lines))):
         alone = harness_lines(["case"] + case_of(l).split(" ")).strip()
